@@ -139,6 +139,12 @@ def rule_cwd_taint(ctx, r):
                     or (isinstance(a, ast.Call) and isinstance(a.func, ast.Attribute) and a.func.attr == "joinpath" and "working_dir" in ast.unparse(a.func.value)) \
                     or (isinstance(a, ast.BinOp) and isinstance(a.op, ast.Div) and "working_dir" in ast.unparse(a.left))
                 n += 1
+                if not (joined or f.key in allowed):
+                    # a spelling that is only ever shown to the user (log lines, terminal output) decides nothing
+                    from .shared import flows_only_to_messages
+                    if flows_only_to_messages(ctx, f, node):
+                        r.ok(f"{f.module.relpath}::{f.qual}::{canon}@display", "the result only reaches log/terminal messages and comparisons", loc(node, f.module))
+                        continue
                 r.check(joined or f.key in allowed, f"{f.module.relpath}::{f.qual}::{canon}", "abspath of a path joined to a working directory",
                         f"`{ast.unparse(node)[:70]}` resolves a path against the invoking directory (it is not joined to a project/target working directory first)",
                         loc(node, f.module))
